@@ -84,19 +84,16 @@ def run(ctx):
         why = []
         fresh = is_fresh(c["st"], c["obj"], dst, dobj, an, why)
         cleared = c["st"].ghost.get("c14-cleared") is True
-        raw0 = c["obj0"].elems[an.i_raw].lin
+        # (which number reset() returns is R-C17-FINAL / R-C17-CONSERVE's business; here: it returns a count at all)
         ret = c["ret"]
-        if c["key"] == an.v_done:
-            ret_ok = isinstance(ret, VInt) and c["st"].const_of(ret.lin) == 0
-        else:
-            ret_ok = isinstance(ret, VInt) and c["st"].prove_eq0(ret.lin - raw0)
+        ret_ok = isinstance(ret, VInt)
         ok = fresh and cleared and ret_ok
         ctx.oblig(ok)
         if not ok:
             ctx.violation("R-C14-RESET", "partition=%s|%s" % (c["key"], "state" if not fresh else ("buffer" if not cleared else "count")),
                           where(an.reset),
                           "reset() from state #%s: %s" % (c["key"], "; ".join(why) if not fresh else
-                                                          ("buffer not cleared" if not cleared else "returned count is not the consumed-byte counter (0 after Done)")))
+                                                          ("buffer not cleared" if not cleared else "does not return a count")))
     # ---- finalize
     for c in cases(A, an.finalize, {"c14-root-fn": "finalize"}):
         why = []
